@@ -351,6 +351,30 @@ def run(chk, replay=None):
                            "custom": str(v[5])} for v in values]}
     res, err = harness(payload)
     if res is None:
+        # the test binary died: a panic escaped every recover of the daemon code AND of the harness.  Find the
+        # message: run the batches one at a time, the harness leaves a marker before every delivery
+        culprit = None
+        for bi, b in enumerate(batches):
+            cur = os.path.join(vlib.BUILD, "c10_out.json.cur")
+            if os.path.exists(cur):
+                os.remove(cur)
+            r1, e1 = harness({"mode": "run", "batches": [[m["hex"] for m in b]], "parallel": 1, "values": []})
+            if r1 is None:
+                try:
+                    mi = int(open(cur).read().strip())
+                except Exception:
+                    mi = None
+                culprit = (bi, mi, e1)
+                break
+        if culprit and culprit[1] is not None:
+            bi, mi, e1 = culprit
+            m = batches[bi][mi]
+            chk.fail("process_death_%d_%d.json" % (bi, mi),
+                     {"what": "the whole process died while this message was handled (a panic escaped every recover): the daemon would "
+                              "exit, closing every connection and losing the buffered data of every application",
+                      "mutants": batches[bi][:mi + 1], "message": m, "panic": e1[-2500:],
+                      "replay": "./check C10 quick --replay <this file>"}, sig="c10-process-death")
+            return
         chk.fail("harness_run.txt", "harness TestVerifC10 (run) failed -- if the test binary died, a panic escaped every "
                  "recover of the harness too:\n" + err, no_input=True)
         return
